@@ -312,3 +312,21 @@ M("c13.mode-not-restored-on-error", "C13", RUN, "    try:\n        context._mode
   "    context._mode = mode\n    yield\n    context._mode = current_mode")
 M("c13.use-or-assign-overwrites", "C13", RUN, "        if name not in self:\n            # -- CASE: New, missing param -- Assign parameter-value.\n            setattr(self, name, value)\n            return value", "        if True:\n            setattr(self, name, value)\n            return value")
 M("c13.testrun-cleanups-not-run", "C13", RUN, "            self.context._do_cleanups()   # Without dropping the last context layer.", "            pass")
+
+# ---- C20 -------------------------------------------------------------------
+CFG = "behave/configuration.py"
+UD = "behave/userdata.py"
+M("c20.defaults-set-after-parse", "C20", CFG, "        parser.set_defaults(**self.defaults)\n        args = parser.parse_args(command_args)", "        args = parser.parse_args(command_args)\n        for _k, _v in self.defaults.items():\n            setattr(args, _k, _v)")
+M("c20.no-capture-wrong-dest", "C20", CFG, '    (("--no-capture",),\n     dict(dest="stdout_capture", action="store_false",', '    (("--no-capture",),\n     dict(dest="stderr_capture", action="store_false",')
+M("c20.config-paths-not-joined", "C20", CFG, "                os.path.normpath(os.path.join(config_dir, p))\n                for p in paths", "                os.path.normpath(p)\n                for p in paths")
+M("c20.userdata-defines-before-file", "C20", CFG, "        if self.userdata_defines:\n            # -- ENSURE: Cmd-line overrides configuration file parameters.\n            self.userdata.update(self.userdata_defines)",
+  "        if self.userdata_defines:\n            _file = dict(self.userdata)\n            self.userdata.update(self.userdata_defines)\n            self.userdata.update(_file)")
+M("c20.unquote-before-strip", "C20", UD, "        value = unqote(value.strip())", "        value = unqote(value).strip()")
+M("c20.getbool-default-ignored", "C20", UD, "        if value is Unknown:\n            return default", "        if value is Unknown:\n            return default if valuetype is not bool else False")
+M("c20.home-file-wins-over-cwd", "C20", CFG, "    for path in reversed(paths):\n        for filename in reversed((", "    for path in paths:\n        for filename in reversed((")
+M("c20.ini-append-order-reversed", "C20", CFG, "            this_config[param_name] = [value_type(part.strip()) for part in value_parts]", "            this_config[param_name] = [value_type(part.strip()) for part in reversed(value_parts)]")
+M("c20.toml-bool-always-true", "C20", CFG, "            this_config[param_name] = bool(raw_value)", "            this_config[param_name] = True")
+M("c20.bare-define-empty", "C20", UD, "        name = text\n        value = \"true\"", "        name = text\n        value = \"\"")
+M("c20.junit-does-not-force-capture", "C20", CFG, "            self.stdout_capture = True\n            self.stderr_capture = True\n            self.log_capture = True\n            self.reporters.append(JUnitReporter(self))", "            self.reporters.append(JUnitReporter(self))")
+M("c20.behaverc-before-behave-ini", "C20", CFG, '            "behave.ini", ".behaverc", "setup.cfg", "tox.ini", "pyproject.toml"', '            ".behaverc", "behave.ini", "setup.cfg", "tox.ini", "pyproject.toml"')
+M("c20.toml-tags-not-renamed", "C20", CFG, "            this_config[param_name] = raw_value\n        elif action not in CONFIGFILE_EXCLUDED_ACTIONS:\n            raise ValueError", "            this_config[dest] = raw_value\n        elif action not in CONFIGFILE_EXCLUDED_ACTIONS:\n            raise ValueError")
